@@ -438,32 +438,33 @@ Fixpoint cand_blocks (g : list (name * vobj)) (cs : list name) : prog (list name
 (* fix (vacuum must not delete nodes that a remaining version reaches): the candidate nodes
    minus every node reachable from this tree, from the versions of the history that stay and
    from all current versions (one node per tree: the version's link) *)
-Fixpoint remaining_links (g : list (name * vobj)) (cs : list name) (names : list name)
+Fixpoint remaining_links (g : list (name * vobj)) (cs : list name) (cur : list name) (names : list name)
          (acc : list name) : prog (list name) :=
   match names with
   | [] => Ret acc
   | n :: rest =>
-      match find (fun kv => fst kv =? n) g with
-      | Some (_, v) =>
-          if mem n cs then remaining_links g cs rest acc
-          else bind (load_tree v) (fun l =>
-                 match l with
-                 | LTree _ => remaining_links g cs rest (match v_link v with Some x => x :: acc | None => acc end)
-                 | LGone => Fail E_LOADTREE
-                 | LErr e => Fail e
-                 end)
+      let keep (v : vobj) :=
+        bind (load_tree v) (fun l =>
+          match l with
+          | LTree _ => remaining_links g cs cur rest (match v_link v with Some x => x :: acc | None => acc end)
+          | LGone => Fail E_LOADTREE
+          | LErr e => Fail e
+          end) in
+      match (match find (fun kv => fst kv =? n) g with
+             | Some (_, v) => if mem n cs then None else Some v
+             | None => None
+             end) with
+      | Some v => keep v                      (* a version of the history that stays *)
       | None =>
-          bind (load_root_any [PCur] n) (fun ro =>
-            match ro with
-            | None => remaining_links g cs rest acc
-            | Some v =>
-                bind (load_tree v) (fun l =>
-                  match l with
-                  | LTree _ => remaining_links g cs rest (match v_link v with Some x => x :: acc | None => acc end)
-                  | LGone => Fail E_LOADTREE
-                  | LErr e => Fail e
-                  end)
-            end)
+          (* a version under current/ — of another writer, or a deletable one of this history
+             that was never retired: loaded from current/ and kept *)
+          if mem n cur then
+            bind (load_root_any [PCur] n) (fun ro =>
+              match ro with
+              | None => remaining_links g cs cur rest acc
+              | Some v => keep v
+              end)
+          else remaining_links g cs cur rest acc
       end
   end.
 
@@ -476,7 +477,7 @@ Definition keep_reachable (h : handle) (g : list (name * vobj)) (cs : list name)
         match r with
         | RNames cur =>
             let names := fold_right insert_sorted [] (map fst g ++ cur) in
-            bind (remaining_links g cs names (match h_link h with Some x => [x] | None => [] end)) (fun keep =>
+            bind (remaining_links g cs cur names (match h_link h with Some x => [x] | None => [] end)) (fun keep =>
               Ret (filter (fun b => negb (mem b keep)) blocks))
         | _ => Fail E_LIST
         end)
